@@ -173,10 +173,33 @@ def run_case(case):
         opts["redirect_limit"] = case["redirect_limit"]
     ws = None
     raised = None
+    pre_ws = None
+    if case.get("pre") and case["api"] == "connect":
+        # the same object was used before, for a connect() that followed redirects and then failed: nothing of that attempt may count now
+        pre_ws = websocket.WebSocket()
+        pnet = simnet.Net()
+        pk = []
+
+        def pfactory(sock, addr):
+            def prespond(req, s, n):
+                pk.append(1)
+                i = len(pk) - 1
+                if i < case["pre"]:
+                    return [f"HTTP/1.1 302 Found\r\nLocation: ws://pre{i}.test/p\r\n\r\n".encode()]
+                return [b"HTTP/1.1 500 Oops\r\nContent-Length: 0\r\n\r\n"]
+
+            return simnet.HttpPeer(prespond)
+
+        pnet.peer_factory = pfactory
+        with pnet.installed():
+            try:
+                pre_ws.connect("ws://origin.test/earlier", redirect_limit=case["pre"] + 1)
+            except Exception:  # noqa: BLE001 - expected to fail; not judged
+                pass
     with net.installed():
         try:
             if case["api"] == "connect":
-                ws = websocket.WebSocket()
+                ws = pre_ws if pre_ws is not None else websocket.WebSocket()
                 ws.connect("ws://origin.test/start", **opts)
             elif case["api"] == "app":
                 ws = approute.connect(websocket, "ws://origin.test/start", opts)  # a failed connection is reported to on_error
@@ -332,6 +355,8 @@ def cases(draw):
         hops.append(r)
     hops.append(draw(final_hop(offered, force_valid=draw(st.integers(0, 2)) == 0)))
     case = {"api": draw(st.sampled_from(["connect", "create_connection"] + (["app"] if limit is None else []))), "subprotocols": offered, "redirect_limit": limit, "hops": hops}
+    if case["api"] == "connect" and draw(st.integers(0, 3)) == 0:
+        case["pre"] = draw(st.integers(1, 4))
     if draw(st.integers(0, 5)) == 0:
         case["fault"] = {"hop": draw(st.integers(0, len(hops) - 1)), "at": draw(st.integers(0, 200)),
                          "kind": draw(st.sampled_from(["eof", "timeout"])), "flavour": draw(st.integers(0, 2))}
@@ -362,6 +387,22 @@ def status_cases():
         for api in ("connect", "create_connection", "app"):
             yield {"api": api, "hops": [{"accept": acc}]}
             yield {"api": api, "subprotocols": ["a", "b"], "hops": [{"status": 302, "location": "ws://h2.test/x"}, {"accept": acc, "proto": "b"}]}
+    # a Location header does not make a redirect out of any other status
+    for status in range(100, 600):
+        if status in REDIRECTS or status == 101:
+            continue
+        for full in (True, False):
+            h = {"status": status, "location": "ws://h2.test/x"}
+            if not full:
+                h.update(upgrade=None, connection=None, accept="missing")
+            yield {"api": ("connect", "create_connection", "app")[status % 3], "hops": [h, {}]}
+    # an object whose earlier connect() followed k redirects and failed is as good as new
+    for k in (1, 2, 3, 5):
+        for limit in (0, 1, 2, None):
+            n = (3 if limit is None else limit) + 1
+            hops = [{"status": 302, "location": f"ws://hop{i + 1}.test/p{i}"} for i in range(n)] + [{}]
+            yield {"api": "connect", "pre": k, "redirect_limit": limit, "hops": hops}
+            yield {"api": "connect", "pre": k, "redirect_limit": limit, "hops": hops[1:]}
     for status in range(100, 600):
         for full in (True, False):
             h = {"status": status}
